@@ -615,15 +615,11 @@ func shrink(sp *caseSpec, f *failure) (*caseSpec, *failure) {
 	return cur, cf
 }
 
-// keyOf names the failing call sites of the minimised case: the site whose budget blew or
-// that panicked; otherwise the remaining library stages (at most 3), followed by the terminal
-// operation unless that is the canonical ToSeq.
+// keyOf names the failing call sites of the minimised case: the remaining library stages (at
+// most 3), followed by the terminal operation unless that is the canonical ToSeq.
 func keyOf(sp *caseSpec, o obs, f *failure) string {
 	if f.kind == "harness" {
 		return "HARNESS/reference-self-disagreement"
-	}
-	if (f.kind == "nontermination" || f.kind == "panic") && f.site != "" && !strings.HasPrefix(f.site, "consume(") && !strings.HasPrefix(f.site, "re-traverse(") {
-		return f.site + "/" + f.kind
 	}
 	names := []string{}
 	for _, st := range planAll(sp, nil) {
@@ -793,9 +789,9 @@ func main() {
 		},
 		Cases: func(tier string, b int) int {
 			if tier == "thorough" {
-				return 6000
+				return 40000
 			}
-			return 2500
+			return 8000
 		},
 		Run: func(w *vrt.W) {
 			for i := w.From; i < w.To; i++ {
